@@ -32,8 +32,9 @@ from harness.common import enc, dec, ddmin
 
 RULE = ("templates rendered from a random item tree: text / ## comments / <%doc> / <%text> (all with decoy calls), "
         "mixed text+${} lines (multi-line expressions, filters, calls in filters), % control blocks (if/elif/else, for, "
-        "while, with, try/except; backslash continuations), <% %> and <%! %> blocks (inline and multi-line, blank "
-        "leading lines, margins), <%def> / <%block> / <%page> / <%call> / <%ns:def> (single- and multi-line tags, "
+        "while, with, try/except; backslash continuations), <% %> and <%! %> blocks (inline and multi-line, empty and "
+        "whitespace-only leading lines, blanks after the opening delimiter, margins; the same in front of expression "
+        "bodies and <%call expr>), <%def> / <%block> / <%page> / <%call> / <%ns:def> (single- and multi-line tags, "
         "multi-line attribute values, attributes on later lines), <%namespace> with nested defs, include/inherit, "
         "<%page>/<%inherit> written with a body; "
         "nesting depth <= 3; calls _(m), gettext(m), ngettext(s, p, n) with unique messages at random places; "
@@ -203,7 +204,7 @@ class Gen:
         r = self.rng
         nc = r.choice([0, 1, 1, 1, 2])
         ml = r.random() < 0.3
-        e = {"body": self.py(nc, r.choice("'\""), ml), "lead": r.choice(["", "", " ", "\n  ", "\n\n "]) if ml or r.random() < 0.15 else r.choice(["", " "]),
+        e = {"body": self.py(nc, r.choice("'\""), ml), "lead": r.choice(["", "", " ", "\n  ", "\n\n ", " \n", "\t\n  ", "  \n \n   "]) if ml or r.random() < 0.2 else r.choice(["", " "]),
              "trail": r.choice(["", "", " ", "\n"]) if ml else r.choice(["", " "]), "filter": None}
         f = r.random()
         if f < 0.25:
@@ -272,7 +273,7 @@ class Gen:
             margin = r.choice(["", "  ", "    ", "\t"])
             lines = []
             for _ in range(r.choice([0, 0, 1, 2])):
-                lines.append("")
+                lines.append(r.choice(["", "", "  ", "\t", margin + " "]))     # empty or whitespace-only lines in front
             nst = r.randint(1, 5)
             for _ in range(nst):
                 k = r.random()
@@ -292,7 +293,7 @@ class Gen:
                     lines.append(margin + "# " + r.choice(self.tags + ["plain"]) + " py comment %d" % self.uid())
                 else:
                     lines.append(margin + r.choice(["import os", "k = 1", "def g(a): return a", "t = (1, 2)"]))
-            src = "\n" + "\n".join(lines) + "\n" + r.choice(["", margin])
+            src = r.choice(["", "", "", " ", "\t", "  "]) + "\n" + "\n".join(lines) + "\n" + r.choice(["", margin])   # (blanks after "<%")
         return {"t": "code", "module": r.random() < 0.3, "src": src, "calls": calls,
                 "tail": r.choice(["", "", " after"]), "ind": r.choice(["", "", "  "])}
 
@@ -338,7 +339,8 @@ class Gen:
     def call_item(self, depth):
         r = self.rng
         p = self.py(r.choice([0, 1, 1, 2]), "'", r.random() < 0.25)
-        return {"t": "call", "expr": {"src": "comp(%s)" % p["src"], "calls": p["calls"]}, "args": r.choice([None, None, "x, y"]),
+        lead = r.choice(["", "", "", " ", "\n  ", " \n   ", "\t\n \n  "])      # whitespace / whitespace-only lines after expr="
+        return {"t": "call", "expr": {"src": lead + "comp(%s)" % p["src"], "calls": p["calls"]}, "args": r.choice([None, None, "x, y"]),
                 "layout": self.tag_layout(), "body": self.seq(depth + 1, r.randint(0, 3)), "ind": r.choice(["", "  "])}
 
     def nscall_item(self, depth):
@@ -346,7 +348,7 @@ class Gen:
         attrs = []
         def pypart(nc, ml):
             # line breaks directly after "${" / before "}" belong to the argument expression as well
-            return {"py": self.py(nc, "'", ml), "lead": r.choice(["", "", "", "\n   ", "\n\n  ", " "]),
+            return {"py": self.py(nc, "'", ml), "lead": r.choice(["", "", "", "\n   ", "\n\n  ", " ", " \n  ", "\t\n\n "]),
                     "trail": r.choice(["", "", "", "\n  ", "\n", " "])}
         for j in range(r.randint(0, 4)):
             k = "a%d" % self.uid()
@@ -1644,6 +1646,12 @@ def witness_cases():
         case([_cm("TR: x"), _x("_('m8 w')", [_c("m8 w")])], ("TR", "TR:")),
         # F-C20-7
         case([_cm("TR: a\x0cb"), {"t": "blank", "n": 1, "ws": False}, _x("_('m9 w')", [_c("m9 w")])]),
+        # whitespace-only lines / blanks between the opening delimiter and the first code line (both flavours must
+        # still report the line the call is written on)
+        case([{"t": "code", "module": False, "src": " \n\t\n  _('m14 w')\n", "calls": [_c("m14 w")], "tail": "", "ind": ""},
+              _x("_('m15 w')", [_c("m15 w")], None, " \n  "),
+              {"t": "call", "expr": {"src": "\t\n \n  comp(_('m16 w'))", "calls": [_c("m16 w")]}, "args": None, "layout": "flat",
+               "body": [], "ind": ""}]),
         # F-C20-9: body of a <%page> tag
         case([{"t": "bodytag", "open": '<%page cached="False">', "body": [_x("_('m13 w')", [_c("m13 w")])]}]),
         # repaired (must stay repaired): filter list on the line after the '|' (ca5ce72)
